@@ -6,6 +6,7 @@
 // Keep every function inside the subset: a function that stops translating makes every `bin/check` fail.
 #![allow(dead_code, unused_variables, unused_mut, clippy::all)]
 
+use std::cmp::{max, min};
 use std::collections::{BTreeMap, BTreeSet, HashMap, VecDeque};
 
 #[derive(Clone, Debug, PartialEq)]
@@ -288,6 +289,71 @@ impl Holder {
         o.set_spent(i, true);
         adds.push(i);
         self.h += 1;
+    }
+}
+
+pub struct Pay {
+    pub hash: u32,
+    pub value: u64,
+}
+
+/// entry API (`and_modify` with a checked `+=`, `or_insert`), a collection typed by being the function's result
+pub fn summarize(hs: &[Pay]) -> BTreeMap<u32, u64> {
+    let mut s = BTreeMap::new();
+    for h in hs {
+        s.entry(h.hash).and_modify(|e| *e += h.value).or_insert(h.value);
+    }
+    s
+}
+
+/// iteration over a `HashMap` is admitted only as one entry-update at the loop key per iteration (the updates commute);
+/// `retain` on a map; `and_modify` alone
+pub fn merge_max(a: &mut HashMap<u64, u64>, b: HashMap<u64, u64>, c: HashMap<u64, u64>, probe: u64) -> (usize, Option<u64>) {
+    for (k, v) in b {
+        a.entry(k).and_modify(|e| *e = max(*e, v)).or_insert(v);
+    }
+    for (k, v) in c {
+        a.entry(k).and_modify(|e| *e = min(*e, v));
+    }
+    a.retain(|_, v| *v != 7);
+    (a.len(), a.get(&probe).copied())
+}
+
+/// newtype (tuple struct with one component, listed under `tuple_structs`), `copy_from_slice` into a range and into
+/// the tail, array length by literal arithmetic, by-value `self`
+pub struct ChanId(pub Vec<u8>);
+
+impl ChanId {
+    pub fn from_parts(peer: &[u8], oid: u64) -> Self {
+        let mut nonce = [0u8; 4 + 8];
+        nonce[0..4].copy_from_slice(peer);
+        nonce[4..].copy_from_slice(&oid.to_le_bytes());
+        Self(nonce.to_vec())
+    }
+    pub fn oid(&self) -> u64 {
+        let n = self.0.len();
+        u64::from_le_bytes(self.0[n - 8..].try_into().unwrap())
+    }
+    pub fn into_len(self) -> usize {
+        self.0.len() << 2 * 1
+    }
+}
+
+/// `lock()` inside an expression and through a helper that returns the guard (read-only use)
+pub struct Guarded {
+    pub st: std::sync::Mutex<Acc>,
+}
+
+impl Guarded {
+    fn get(&self) -> std::sync::MutexGuard<'_, Acc> {
+        self.st.lock().expect("lock")
+    }
+    pub fn height_plus(&self, d: u32) -> u32 {
+        let s = self.get();
+        s.height + d
+    }
+    pub fn total(&self) -> u64 {
+        self.st.lock().unwrap().total
     }
 }
 
